@@ -126,6 +126,12 @@ def convOf (name : String) : Conv :=
   | "neg" => { w := negJ, u := negJ }
   | _ => { w := id, u := id }
 
+/-- elements `to_wrapped_value` raises on ("boom": every string) -/
+def badOf (name : String) : Val → Bool :=
+  match name with
+  | "boom" => fun v => match v with | .atom (.str _) => true | _ => false
+  | _ => fun _ => false
+
 /-- finish with several dumped values -/
 def finishVals (st : MState) (tag : String) (pre : List Json) (vs : List Val) : MState × Json :=
   let (g, ds) := dumpVal st.heap st.root { nums := st.nums }
@@ -192,6 +198,13 @@ def predOf (name : String) (h : Heap) : Val → Bool := fun v =>
   | "is_int" => match j with | .int _ => true | _ => false
   | "is_float" => match j with | .half _ => true | _ => false
   | _ => false
+
+/-- predicates with memory: the state is the number of calls so far -/
+def predOfS (name : String) (h : Heap) : Nat → Val → Nat × Bool := fun n v =>
+  match name with
+  | "first2" => (n+1, n < 2)
+  | "alt" => (n+1, n % 2 == 0)
+  | _ => (n+1, predOf name h v)
 
 def getNatJ (j : Json) : E Nat := match j.getNat? with | .ok n => pure n | .error e => .error e
 
@@ -408,8 +421,9 @@ def runOp (st : MState) (op : Json) : E (MState × Json) := do
     | some (id, conv, pos, dead) =>
       let xs := (listOf st.heap id).getD []
       if dead then return finishErr st (pyErrJ "StopIteration")
-      else match xs[pos]? with
-        | some x => return finish { st with iters := (itid, id, conv, pos+1, false) :: st.iters.filter (·.1 != itid) } "ok" [] (some ((convOf conv).wrap x))
+      else match iterNextX (convOf conv) (badOf conv) xs pos with
+        | some (pos', some v) => return finish { st with iters := (itid, id, conv, pos', false) :: st.iters.filter (·.1 != itid) } "ok" [] (some v)
+        | some (pos', none) => return finishErr { st with iters := (itid, id, conv, pos', false) :: st.iters.filter (·.1 != itid) } (pyErrJ "Boom")
         | none => return finishErr { st with iters := (itid, id, conv, pos, true) :: st.iters.filter (·.1 != itid) } (pyErrJ "StopIteration")
   | .str "l.it.new" :: [itid, lid] => do
     let itid ← getNatJ itid
@@ -429,8 +443,13 @@ def runOp (st : MState) (op : Json) : E (MState × Json) := do
         | some n => return finish st "ok" [natJ n] none
         | none => return finishErr st (pyErrJ "TypeError")
       | "l.get", [i] => do
-        match lGet c st.heap id (← getInt i) with
-        | some v => return finish st "ok" [] (some v)
+        let i ← getInt i
+        match (listOf st.heap id).bind (fun xs => (normIndex xs.length i).bind (xs[·]?)) with
+        | some x =>
+          if badOf conv x then return finishErr st (pyErrJ "Boom")
+          else match lGet c st.heap id i with
+            | some v => return finish st "ok" [] (some v)
+            | none => return finishErr st (pyErrJ "IndexError")
         | none => return finishErr st (pyErrJ "IndexError")
       | "l.set", [i, vs] => do
         let (h, v) ← decValSpec st vs
@@ -452,17 +471,26 @@ def runOp (st : MState) (op : Json) : E (MState × Json) := do
         | some h' => return finish { st with heap := h' } "ok" [] none
         | none => return finishErr st (pyErrJ "AttributeError")
       | "l.pop", [i] => do
-        match lPop c st.heap id (← getInt i) with
-        | some (h', v) => return finish { st with heap := h' } "ok" [] (some v)
+        match lPopX c (badOf conv) st.heap id (← getInt i) with
+        | some (h', some v) => return finish { st with heap := h' } "ok" [] (some v)
+        | some (h', none) => return finishErr { st with heap := h' } (pyErrJ "Boom")
         | none => return finishErr st (pyErrJ "IndexError")
-      | "l.iter", [] => match lIter c st.heap id with
-        | some vs => return finishVals st "vals" [] vs
+      | "l.iter", [] => match listOf st.heap id with
+        | some xs =>
+          if xs.any (badOf conv) then return finishErr st (pyErrJ "Boom")
+          else return finishVals st "vals" [] (xs.map c.wrap)
         | none => return finishErr st (pyErrJ "TypeError")
-      | "l.keep", [.str pn] => match lKeepAll c (predOf pn st.heap) st.heap id with
-        | some h' => return finish { st with heap := h' } "ok" [] none
+      | "l.keep", [.str pn] => match listOf st.heap id with
+        | some xs =>
+          let (xs', raised) := keepAllX c (badOf conv) (predOfS pn st.heap) 0 xs
+          let st' := { st with heap := hput st.heap id (.list xs') }
+          if raised then return finishErr st' (pyErrJ "Boom") else return finish st' "ok" [] none
         | none => return finishErr st (pyErrJ "TypeError")
-      | "l.remove", [.str pn] => match lRemoveAll c (predOf pn st.heap) st.heap id with
-        | some h' => return finish { st with heap := h' } "ok" [] none
+      | "l.remove", [.str pn] => match listOf st.heap id with
+        | some xs =>
+          let (xs', raised) := keepAllX c (badOf conv) (fun n v => let r := predOfS pn st.heap n v; (r.1, !r.2)) 0 xs
+          let st' := { st with heap := hput st.heap id (.list xs') }
+          if raised then return finishErr st' (pyErrJ "Boom") else return finish st' "ok" [] none
         | none => return finishErr st (pyErrJ "TypeError")
       | _, _ => jErr "bad list op" op
   | _ => jErr "bad op" op
